@@ -135,6 +135,23 @@ theorem output_no_control (q : Bool) (bs : Bytes) :
   have := output_clean false q bs c hc
   simpa [okChar] using this
 
+/-- **enc_injective.** Two different byte strings never show as the same text (whatever the options of each view). -/
+theorem enc_injective (k q k' q' : Bool) (a b : Bytes) (h : enc k q a = enc k' q' b) : a = b := by
+  have ha := roundtrip k q a
+  rw [h, roundtrip k' q' b] at ha
+  exact (Option.some.inj ha).symm
+
+/-- **enc_append.** Escaping is byte-local: the text of a concatenation is the concatenation of the texts
+    (so an edit of one region of the text changes only the corresponding bytes). -/
+theorem enc_append (k q : Bool) (a b : Bytes) : enc k q (a ++ b) = enc k q a ++ enc k q b := by
+  simp [enc, List.flatMap_append]
+
+/-- **edit_roundtrip.** Replacing the middle of the text by the escaped form of other bytes converts back to the
+    bytes with exactly that region replaced. -/
+theorem edit_roundtrip (k q : Bool) (a b b' c : Bytes) :
+    dec (enc k q a ++ enc k q b' ++ enc k q c) = some (a ++ b' ++ c) := by
+  rw [← enc_append, ← enc_append]; exact roundtrip k q _
+
 -- non-vacuity / sanity: concrete instances computed by the kernel
 --   b"\x00'\\\n\xffA"  ->  \x00'\\\n\xffA
 example : enc false false [0x00, 0x27, 0x5c, 0x0a, 0xff, 0x41] =
